@@ -455,7 +455,7 @@ func RunMulti(p *core.Program, cfg gen.Config, files []*FileSpec, args []string,
 		g := gen.New(m)
 		o := &out{}
 		for _, f := range files {
-			o.specs = append(o.specs, &FileSpec{Name: f.Name, ID: f.ID, Root: f.Root.Clone()})
+			o.specs = append(o.specs, &FileSpec{Name: f.Name, ID: f.ID, Root: f.Root.Clone(), NoRoot: f.NoRoot})
 		}
 		schemas := BuildFiles(g, o.specs)
 		g.StubLoader(schemas)
